@@ -57,6 +57,7 @@ static void rec(uint8_t kind, uint8_t sink, uint64_t ts)
   vobs(kind); vobs(sink); vobs(ts);
 }
 extern "C" uint32_t vh_fault(uint32_t site);   // harness-defined: should this sink call throw? (EXC harnesses)
+extern "C" void vh_throw(uint32_t site);
 
 struct RecSink : Sink
 {
@@ -66,17 +67,19 @@ struct RecSink : Sink
                  std::string_view) override
   {
 #ifdef BK_EXC
-    if (vh_fault(id)) throw std::runtime_error("sink");
+    vh_throw(id);             // harness-defined: throws (or not) for this call site
 #endif
     rec(0, id, ts);
   }
   void flush_sink() override
   {
 #ifdef BK_EXC
-    if (vh_fault(8 + id)) throw std::runtime_error("flush");
+    vh_throw(8 + id);
 #endif
     rec(1, id, 0);
   }
+  void run_periodic_tasks() noexcept override { periodic++; }
+  uint32_t periodic;
   using Sink::apply_all_filters;
 };
 
@@ -122,7 +125,7 @@ static void bk_init_backend()
 }
 // light variant: only the options member is constructed (for kernels that use nothing else of the worker)
 static void bk_init_backend_light() { new (&g_bw.b._options) BackendOptions(); }
-static void bk_init_sink(uint32_t i) { RecSink* s = new (sink_at(i)) RecSink(); s->id = static_cast<uint8_t>(i); }
+static void bk_init_sink(uint32_t i) { RecSink* s = new (sink_at(i)) RecSink(); s->id = static_cast<uint8_t>(i); s->periodic = 0; }
 
 // logger i writing to sinks [0, nsinks)
 static L* bk_init_logger(uint32_t i, uint32_t nsinks, ClockSourceType cs = ClockSourceType::User)
